@@ -655,6 +655,31 @@ func registerMisc() {
 		}
 		return t
 	}
+	// Wall-clock readings of engine-made times: the engine's time values carry the virtual clock as their monotonic
+	// reading only (wall seconds are not encoded), so the Unix* accessors are answered from that reading (the virtual
+	// clock counts nanoseconds since the Unix epoch). Times built by the program itself (time.Unix, time.Date) have no
+	// monotonic reading and go through the source.
+	unixOf := func(div uint64) func(in *Interp, th *Thread, fn *ssa.Function, args []Value, d func(Value)) (Value, bool) {
+		return func(in *Interp, th *Thread, fn *ssa.Function, args []Value, d func(Value)) (Value, bool) {
+			tv, ok := args[0].(*StructV)
+			if !ok || len(tv.F) < 2 {
+				return nil, false
+			}
+			wall, ok1 := tv.F[0].(*Term)
+			ext, ok2 := tv.F[1].(*Term)
+			if !ok1 || !ok2 || !wall.IsConst() || wall.Val>>63 == 0 {
+				return nil, false
+			}
+			if div == 1 {
+				return ext, true
+			}
+			return in.tb.BvBin(OpSDiv, ext, in.c64(div)), true
+		}
+	}
+	I["(time.Time).UnixNano"] = unixOf(1)
+	I["(time.Time).UnixMicro"] = unixOf(1000)
+	I["(time.Time).UnixMilli"] = unixOf(1000000)
+	I["(time.Time).Unix"] = unixOf(1000000000)
 	I["(*time.Timer).Stop"] = func(in *Interp, th *Thread, fn *ssa.Function, args []Value, d func(Value)) (Value, bool) {
 		t := timerOf(in, args[0])
 		was := t.active
